@@ -1,5 +1,5 @@
 (* C18 — tolerated failures: executable model of the four places where fx-core deliberately
-   continues after a failed sub-step.  Faithful to the code as it is (defects included).
+   continues after a failed sub-step.  Faithful to the code as it is.
 
    The point of the model is the POSITION of the cache branch relative to the writes:
 
@@ -243,6 +243,12 @@ Definition withdraw_one (holder : Z) (ta : Z * Z) (s : bst) : result bst :=
   Ok (set_bal s (ladd (ladd (ladd (ladd (bal s)
         (holder, Base, t) (- a)) (Supply, Base, t) (- a)) (ModX, Bridge, t) (- a)) (Supply, Bridge, t) (- a))).
 
+(* bank SendCoins(from, to, coin) of one base coin (hand-over of the deposit to the refund address) *)
+Definition move_one (from to : Z) (ta : Z * Z) (s : bst) : result bst :=
+  let (t, a) := ta in
+  if bal s (from, Base, t) <? a then Err s else
+  Ok (set_bal s (ladd (ladd (bal s) (from, Base, t) (- a)) (to, Base, t) a)).
+
 Section BridgeCall.
   (* the EVM call into the target contract: ANY behaviour, including writes before the failure *)
   Variable call : bst -> result bst.
@@ -260,6 +266,13 @@ Section BridgeCall.
                                               oc_tokens := coins; oc_event := m_nonce m |})
                     else Err s1).
 
+  (* on ctx, after the failed inner step:
+       if refundAddr := msg.GetRefundAddr(); !bytes.Equal(receiverAddr, refundAddr) && !baseCoins.IsZero() {
+           if err = k.bankKeeper.SendCoins(ctx, receiverAddr, refundAddr, baseCoins); err != nil { return err } }   *)
+  Definition hand_over (m : bcmsg) (coins : list (Z * Z)) (s : bst) : result bst :=
+    if (receiver m =? m_refund m) || match coins with [] => true | _ => false end then Ok s
+    else run_steps (map (move_one (receiver m) (m_refund m)) coins) s.
+
   (* BridgeCallHandler(ctx, msg) *)
   Definition bridge_call_handler (m : bcmsg) (s : bst) : result bst :=
     (* on ctx: the deposits, one by one in claim order *)
@@ -270,6 +283,19 @@ Section BridgeCall.
         (* cacheCtx, commit := ctx.CacheContext() *)
         let cache := branch s1 in
         match bridge_call_evm m coins cache with
+        | Ok c'  => Ok (commit s1 c')
+        | Err c' => bind (hand_over m coins (discard s1 c')) (failed_refund m coins)
+        end
+    end.
+
+  (* the handler as it was before the fix "a failed inbound bridge call refunds the coins that were actually
+     deposited" (snapshot 6774338): no hand-over, the refund is withdrawn from the refund address' own balance *)
+  Definition bridge_call_handler_prefix (m : bcmsg) (s : bst) : result bst :=
+    match run_steps (map (deposit_one (receiver m)) (m_tokens m)) s with
+    | Err s' => Err s'
+    | Ok s1 =>
+        let coins := base_coins (m_tokens m) in
+        match bridge_call_evm m coins (branch s1) with
         | Ok c'  => Ok (commit s1 c')
         | Err c' => failed_refund m coins (discard s1 c')
         end
